@@ -230,6 +230,10 @@ func (p *IdP) Handler() http.Handler {
 		case "":
 		case "ctx-cancel":
 			p.w.cancelActive(t)
+		case "stall":
+			p.w.dropFaultEntry(t) // the answer is late, not wrong
+			p.w.stallHere()
+			p.w.Sim.SetCur(t)
 		case "garbage":
 			p.w.countFault("discovery-garbage")
 			w.Header().Set("Content-Type", "application/json")
@@ -520,6 +524,12 @@ func (p *IdP) handleToken(w http.ResponseWriter, r *http.Request) {
 	}
 
 	fault := p.w.faultAt("idp.token")
+	if fault == "stall" {
+		fault = ""
+		p.w.dropFaultEntry(task)
+		p.w.stallHere()
+		sim.SetCur(task)
+	}
 	if fault == "ctx-cancel" {
 		// Envoy gives up on the check while the provider is serving its token request; the provider itself
 		// answers normally
